@@ -103,7 +103,7 @@ def C19():
                 outside=["windows larger than 3x3", "compressed / 16 bpp input on this path (C08)", "allocator layout UB of transmute_vec"])
 
 
-RLE32_TOTAL = [("1x1_n3_a", True), ("2x1_n4_b", True), ("1x2_n4_a", False), ("2x2_n6_b", False)]
+RLE32_TOTAL = [("1x1_n3_a", True), ("2x1_n4_b", True), ("1x2_n4_a", True), ("2x2_n6_b", False)]
 DECOMP = [("raw32_2x2_n16", True), ("raw32_2x2_n15", True), ("raw32_2x2_n17", True), ("raw32_1x1_n0", True), ("raw32_0x2_n0", False),
           ("raw16_2x2_n8", True), ("raw16_2x2_n7", True), ("raw16_2x2_n0", False), ("raw16_1x3_n9", False), ("raw16_0x0_n2", True),
           ("rle32_disp_0x1_n3", True)]
@@ -186,7 +186,9 @@ def C09():
 
 def C01():
     jobs = [MirJob("c01_mir_cssp_order", "cssp_connect: credential accessors, the second gss_wrapex and the third Link::write are reachable only through the key-match edge of the BigUint comparison and never from the mismatch edge; polarity of the comparison; operands are (unsealed reply, certificate key + 1); the comparison is reached only after gss_unwrapex and read_ts_validate returned Ok; no write after a mismatch; Ok(()) only after the final write",
-                   mirjobs.cssp_order)]
+                   mirjobs.cssp_order),
+            MirJob("c01_mir_unseal", "the final-round reply is unsealed by gss_unwrapex whose plaintext is returned only through the checksum-match edge (decrypt cipher, verify key, first 8 HMAC bytes, polarity): shared with C16",
+                   mirjobs.unwrap_order)]
     return Prop("C01", [], jobs,
                 assumptions=["E2 admits every branch outcome (over-approximation): sound for must-precede claims",
                              "the arithmetic of num-bigint (from_bytes_le, +, !=) is trusted: a Kani harness on the extracted condition (lowering L5, kept in vrun.py) ran CBMC out of 12 GB even for 1-byte operands (Vec<u32> digit vectors of symbolic length)"],
@@ -284,7 +286,7 @@ def C04():
             ("c04_gcc_block_header", "GCC user-data block header: type LE, length = body + 4 for every body length <= 65531", True, None),
             ("c04_gcc_security_data", "TS_UD_CS_SEC: 8 bytes, methods 40|56|128, ext 0", False, None),
             ("c04_mcs_requests", "attach-user, channel-join (every user id >= 1001 and channel id) and erect-domain requests byte-exact", True, None),
-            ("c18_per_length_roundtrip", "PER length determinant for every length <= 0x7fff (used by the MCS send-data-request header)", False, None),
+            ("c18_per_length_roundtrip", "PER length determinant for every length <= 0x7fff (used by the MCS send-data-request header)", True, None),
             ("c04_pointer_event", "TS_POINTER_EVENT body for every flags/x/y: 6 bytes, exact values", True, None),
             ("c04_keyboard_event", "TS_KEYBOARD_EVENT body for every flags/scancode", True, None),
             ("c04_finalize_pdus", "synchronize / control(request) / font-list PDU bodies byte-exact for every target user", True, None)):
@@ -292,7 +294,7 @@ def C04():
                          functions=["constructor + Message::write"], timeout=1500, mem_gb=12))
     jobs.append(MirJob("c04_mir_core_data_name", "gcc::client_core_data: the clientName computation has no reachable panicking slice/index/unwrap and no failing arithmetic for any name (length symbolic)",
                        mirjobs.multi(mirjobs.panic_sites([(r"^client_core_data$", [(r"Option::<ClientData>::unwrap_or$", 1, "default parameters")])], {r"^client_core_data$": mirjobs.CORE_DATA_NATIVE}),
-                                     mirjobs.fn_asserts(r"^client_core_data$", "client name length", loop_bound=0))))
+                                     mirjobs.fn_asserts(r"^client_core_data$", "client name length", loop_bound=0), mirjobs.core_data_units)))
     return Prop("C04", [("core/per.rs", "per.rs"), ("core/tpkt.rs", "tpkt.rs"), ("core/x224.rs", "x224.rs"), ("core/mcs.rs", "mcs.rs"), ("core/gcc.rs", "gcc.rs"), ("core/global.rs", "global.rs")], jobs, lowerings=["L2"],
                 assumptions=[S1, S6, DEV, "L2 light error payloads", "the strict parser is the set of relations asserted in the harness (written from MS-RDPBCGR / T.125 / X.224), applied to the bytes the real Message::write produced"], stubs=[S1],
                 text="Byte-exact well-formedness of every emitter that is one component/trame deep, for all values of its numeric fields and symbolic payload bytes: each length/count field equals what it describes, fixed fields have their size and offset, the client name is 32 bytes NUL terminated for arbitrary Unicode scalars.",
@@ -349,6 +351,12 @@ def C06():
                        mirjobs.fn_asserts(r"^mcs::<impl at src/core/mcs\.rs[^>]*>::read$", "MCS send-data-indication header", loop_bound=1)))
     jobs.append(MirJob("c06_mir_size_closures", "every size/skip closure of the session-phase layouts (share control/data headers, demand-active, deactivate-all, capability set, fast-path update, bitmap data, colour pointer): for every value of the wire field no arithmetic check fails and the requested buffer is <= 131072 bytes",
                        mirjobs.size_closures(r"^(share_control_header|share_data_header|ts_demand_active_pdu|ts_confirm_active_pdu|ts_deactivate_all_pdu|capability_set|ts_fp_update|ts_bitmap_data|ts_colorpointerattribute)::", 131072, "active session")))
+    jobs.append(MirJob("c06_mir_session_arith", "read_fast_path / read_data_pdu / read_demand_active_pdu / PDU::from_control / DataPDU::from_pdu / FastPathUpdate::from_fp / Capability::from_capability_set: no arithmetic check (overflow, division, index) of their own can fail on wire values",
+                       mirjobs.multi(*[mirjobs.fn_asserts(rx, "session PDU field", loop_bound=1, native=(lambda m: mirjobs.FASTPATH_NATIVE) if "fast_path" in rx else None)
+                                       for rx in (r"^global::<impl at src/core/global\.rs[^>]*>::read_fast_path$", r"^global::<impl at src/core/global\.rs[^>]*>::read_data_pdu$",
+                                                  r"^global::<impl at src/core/global\.rs[^>]*>::read_demand_active_pdu$", r"^global::<impl at src/core/global\.rs[^>]*>::from_control$",
+                                                  r"^global::<impl at src/core/global\.rs[^>]*>::from_pdu$", r"^global::<impl at src/core/global\.rs[^>]*>::from_fp$",
+                                                  r"^capability::<impl at src/core/capability\.rs[^>]*>::from_capability_set$")])))
     return Prop("C06", [("core/tpkt.rs", "tpkt.rs"), ("core/x224.rs", "x224.rs")], jobs, lowerings=["L2"],
                 assumptions=[S1, S6, DEV, "L2 light error payloads", "E3: the wire field of each closure is an unconstrained symbol"], stubs=[S1],
                 text="Kernel of the property: (E3) for every layout of global.rs/capability.rs that turns a wire field into a buffer size or a skip decision, all 65536 (256) field values: no panicking arithmetic, bounded size; (E1) x224 / tpkt header parsing on every header / payload up to 6 bytes; (E3) mcs::Client::read's own arithmetic. These subtractions are where a hostile length crashes a session.",
